@@ -505,7 +505,57 @@ def exec_two_clients(ctx, case: Dict[str, Any]) -> None:
     ctx.record(case, shape=shape, nontrivial=True, cls="two_clients", sample={"case": case, "delivered_rejections": shape})
 
 
+def rejection_during_big_write_tier(ctx):
+    """At a version without batching, batches arrive while the application's own large message is being written to a
+    slowly draining child (the rejection is written by the reader, the message by the writer task): every batch must still
+    be answered with exactly one parsable -32600 line, and none of its members delivered."""
+    from vf.stdio_harness import run_stdio_script
+    rng = ctx.sub_rng("c13big")
+    for k in range(8 if ctx.tier == "quick" else 80):
+        if not ctx.mine():
+            continue
+        size = rng.choice([70_000, 200_000, 300_000, 1_100_000])
+        n_batches = rng.randint(1, 4)
+        delay = rng.choice([0.01, 0.5])
+        batch = [MEMBERS["note"], MEMBERS["req"]]
+        steps: List[Any] = [("version", "2025-06-18"), ("send", {"jsonrpc": "2.0", "id": "big", "method": "tools/call",
+                                                               "params": {"blob": "\u00e9" * (size // 2)}})]
+        for _ in range(n_batches):
+            steps.append(("feed", (json.dumps(batch) + "\n").encode()))
+        steps += [("wait", 600.0), ("close_write",), ("wait", 60.0)]
+        case = {"rejection_during_big_write": True, "size": size, "batches": n_batches, "stdin_delay": delay, "k": k}
+        try:
+            out = run_stdio_script(steps, stdin_delay=delay, tie_seed=k)
+        except Exception as ex:  # noqa
+            ctx.violation("harness_or_crash", f"rejection during a big write: {ex!r}", case)
+            continue
+        ctx.count("stdio_sessions")
+        ctx.count("big_write_sessions")
+        data: bytes = out["stdin_before_exit"]
+        rej, broken, others = 0, 0, 0
+        for ln in data.split(b"\n")[:-1]:
+            try:
+                v = json.loads(ln.decode("utf-8"))
+            except Exception:  # noqa
+                broken += 1
+                continue
+            if isinstance(v, dict) and isinstance(v.get("error"), dict) and v["error"].get("code") == -32600:
+                rej += 1
+            else:
+                others += 1
+        delivered = [m for m in out["read"] if not isinstance(m, list)]
+        if broken or rej != n_batches or others != 1:
+            ctx.violation("rejection_count" if not broken else "rejection_not_parsable",
+                          f"{n_batches} batches arrived at 2025-06-18 while a {size}-byte message was being written: the child read "
+                          f"{rej} parsable -32600 lines, {others} other message lines and {broken} lines that are not JSON", case)
+        if delivered:
+            ctx.violation("rejected_batch_member_delivered", f"{len(delivered)} members of rejected batches were delivered", case)
+        ctx.record(case, shape=[rej, others, broken], nontrivial=True, cls="rejection_during_big_write",
+                   sample={"case": case, "rejections": rej, "broken_lines": broken})
+
+
 def run(ctx):
+    rejection_during_big_write_tier(ctx)
     from chuk_mcp.protocol.features.batching import supports_batching, BatchProcessor, should_reject_batch
     from chuk_mcp.protocol.types.versioning import ProtocolVersion
 
@@ -632,6 +682,9 @@ def run(ctx):
 
 
 def replay(ctx, case):
+    if case.get("rejection_during_big_write"):
+        rejection_during_big_write_tier(ctx)
+        return
     if case.get("reentered"):
         exec_reentered_client(ctx, case)
         ctx.record({"x": 1}, shape=1)
